@@ -182,6 +182,19 @@ def check(ctx):
         okl = bool(loop) and all(any(isinstance(x, ast.Name) and x.id == cparam for x in ast.walk(h.ast.iter)) for h in loop)
         ctx.ob("iterates-child", ct, "for key, value in child.items()", okl, "every key of the included tree is visited" if okl else
                "combine_trees does not iterate over the included tree")
+        # every key of the included tree leaves its mark: no way round the loop without a store into the returned copy (an included
+        # null / scalar replaces what the including document had, whatever that was)
+        from engine.flow import path_avoiding
+        for h in loop:
+            b0 = [s_ for s_, lbl in h.succ if lbl is True]
+            if not b0:
+                continue
+            sset = set(stores)
+            pskip = path_avoiding(an, ct, b0[0], lambda n, h=h: n is h, lambda n: n in sset, exceptions=False)
+            ctx.ob("included-wins.every-key", ct, h.ast.iter, pskip is None,
+                   "every key of the included tree is stored into the result" if pskip is None else
+                   "a key of the included tree can be skipped without being stored (%s): the including document's value survives although the "
+                   "included file sets the key" % " -> ".join("%s@%s" % (x.kind, x.lineno) for x in pskip[:6]), node=h)
         nrec = 0
         for s in stores:
             v = s.ast.value
